@@ -14,6 +14,11 @@ func (e *FilterExec) Explain() string {
 }
 
 func (e *FilterExec) Filter(kvp KVPair, ctx *ExecuteCtx) (bool, error) {
+	if ctx != nil {
+		// Field results cached while filtering the previous pair (which may have
+		// been rejected) must not be reused for this pair
+		ctx.Clear()
+	}
 	ret, err := e.filterBatch([]KVPair{kvp}, ctx)
 	if err != nil {
 		return false, err
